@@ -245,8 +245,18 @@ func genItemPair(rt *rapid.T) (c13Item, c13Item, string) {
 	case "P":
 		a := c13Item{fam: "P", block: block, comp: comp}
 		b := a
-		mode := rapid.SampledFrom([]string{"sep-shift", "sep-shift", "resplit", "resplit", "random", "block", "comp", "allkey", "same"}).Draw(rt, "pmode")
+		mode := rapid.SampledFrom([]string{"sep-shift", "sep-shift", "resplit", "resplit", "random", "block", "comp", "allkey", "same", "escape-shift", "escape-random"}).Draw(rt, "pmode")
 		switch mode {
+		case "escape-shift": // (p+"\\", q+":"+r) vs (p+":"+q, r): equal once ':' is escaped as "\\:" but '\\' itself is not
+			p, q, r := genSepString(rt, "p", 0, 3), genValue(rt, "q"), genValue(rt, "r")
+			a.name, a.value = p+"\\", q+":"+r
+			b.name, b.value = p+":"+q, r
+		case "escape-random": // names and values over the key's separator and escape characters only
+			esc := func(label string, min int) string {
+				return strings.Join(rapid.SliceOfN(rapid.SampledFrom([]string{"a", "\\", ":", "\\:", "\\\\"}), min, 4).Draw(rt, label), "")
+			}
+			a.name, a.value = esc("an", 1), esc("av", 0)
+			b.name, b.value = esc("bn", 1), esc("bv", 0)
 		case "sep-shift": // ("p:q", r) vs (p, "q:r"): the F9 class
 			p, q, r := genName(rt, "p"), genValue(rt, "q"), genValue(rt, "r")
 			a.name, a.value = p+":"+q, r
